@@ -285,14 +285,20 @@ class C12(Check):
                 elif isinstance(v, types.FunctionType) and v.__module__ == name:
                     seen.add(id(v.__dict__))
                     out.append((name + '.' + k + '.__dict__', v.__dict__, dict(v.__dict__)))
+                elif core.is_memo_wrapper(v):
+                    seen.add(id(v))
+                    out.append((name + '.' + k + ' (memo)', v, None))
                 elif isinstance(v, type) and v.__module__ == name:
                     for ck, cv in list(vars(v).items()):          # class-level mutable defaults (e.g. LarkOptions._defaults)
                         if isinstance(cv, (dict, list, set)) and id(cv) not in seen and not ck.startswith('__'):
                             seen.add(id(cv))
                             out.append(('%s.%s.%s' % (name, k, ck), cv, cv.copy()))
+                        elif core.is_memo_wrapper(getattr(cv, '__func__', cv)) and id(cv) not in seen:
+                            seen.add(id(cv))
+                            out.append(('%s.%s.%s (memo)' % (name, k, ck), getattr(cv, '__func__', cv), None))
         return out
 
-    def _reset_volatile(self, force=False):
+    def _reset_volatile(self, force=False, keep_grammar_parser=False):
         """only durable state survives a process: every module-level container of lark goes back to its import-time content.
         Rebuilding the grammar-of-grammars parser costs ~0.2 s, so this is done for the histories whose plan asks for it (a swarm
         knob: those histories are sequences of separate processes, the others are same-process histories), not for every lifetime."""
@@ -301,7 +307,11 @@ class C12(Check):
         if not (force or self.reset_volatile):
             return
         for name, obj, orig in self.volatile:
-            if isinstance(obj, dict):
+            if keep_grammar_parser and name.endswith('._get_parser.__dict__'):
+                continue
+            if orig is None:
+                obj.cache_clear()
+            elif isinstance(obj, dict):
                 if obj != orig:
                     obj.clear()
                     obj.update(orig)
@@ -463,6 +473,9 @@ class C12(Check):
         gc.collect()
         self.reset_volatile = bool(plan.get('reset_volatile'))
         self.fresh_modules = bool(plan.get('fresh_modules'))
+        # a run starts in a process that has imported lark and not used it: nothing that an earlier run of this worker left in lark's
+        # module-level containers, function attributes or memoising wrappers survives (except the grammar-of-grammars parser, 0.2 s)
+        self._reset_volatile(force=True, keep_grammar_parser=not self.reset_volatile)
         self.facade = F.Facade()
         uninstall = F.install(self.facade)
         try:
